@@ -4,6 +4,7 @@ import (
 	"bytes"
 	"context"
 	"fmt"
+	"sync/atomic"
 	"time"
 
 	p9p "github.com/frobnitzem/go-p9p"
@@ -20,7 +21,7 @@ func init() {
 		ID:    "C02",
 		Level: "exploration",
 		Rule: "(message, msize, ctx) triples: messages of all 27 kinds from the C01 generator; msize from {24,25,64,255,256,4096,65536,2^20} and every value within +-40 of the message's own frame length L (clipped to [24,2^20]); " +
-			"ctx live / cancelled / CancelledCtxt; Tread counts from {0,1,M-12,M-11,M-10,2^31,2^32-12,2^32-11,2^32-1}; on fresh channels and on one long-lived channel with SetMSize between writes. " +
+			"ctx live / cancelled / CancelledCtxt; Tread counts from {0,1,M-12,M-11,M-10,2^31,2^32-12,2^32-11,2^32-1}; on fresh channels and on one long-lived channel with SetMSize between writes; write sequences {no deadline, context deadline, clock past that deadline, no deadline x3} on a connection that honours write deadlines against a virtual clock. " +
 			"Oracle: bytes captured on the conn must be exactly the reference frame (unmodified, Twrite cut to msize with data a prefix, Tread count=min(count,M-11)) or nothing plus Overflow(err)==L-M. " +
 			"non-trivial = |L-M|<=40 or the truncate/clamp/reject/cancel path taken; distinct by (kind, L-M, path)",
 		Assumptions: []string{
@@ -30,7 +31,7 @@ func init() {
 		Shards:   shards(8, 16),
 		Timeout:  timeouts(12*time.Minute, 90*time.Minute),
 		MinEvals: 1000,
-		Required: []string{"path:fit", "path:fit-exact", "path:over-by-1", "path:truncated", "path:clamped", "path:rejected", "path:cancelled", "long_lived_channel_writes", "overlong_string_messages"},
+		Required: []string{"path:fit", "path:fit-exact", "path:over-by-1", "path:truncated", "path:clamped", "path:rejected", "path:cancelled", "long_lived_channel_writes", "overlong_string_messages", "deadline_sequences"},
 		Run:      runC02,
 	})
 }
@@ -69,7 +70,75 @@ func clipM(m int) int {
 	return m
 }
 
+// deadlinesC02: writes on one channel over a connection that honours write deadlines
+// (against a virtual clock): without deadline, with a context deadline, and - once the clock
+// has passed that deadline, well within the library's own default - without deadline again.
+// Each write must put exactly its one complete frame on the connection.
+func deadlinesC02(w *mon.W, g *gen.G, no int) {
+	M := 4096
+	a, b := wire.BPipe(1 << 20)
+	var skew int64
+	a.Clock = func() time.Time { return time.Now().Add(time.Duration(atomic.LoadInt64(&skew))) }
+	ch := p9p.NewChannel(a, M)
+	w.Case("C02 deadline sequence #%d", no)
+	w.Eval()
+	w.Count("deadline_sequences", 1)
+	defer a.Close()
+	defer b.Close()
+	step := func(ctx context.Context, what string) bool {
+		g.MaxStr, g.MaxData, g.MaxList = 40, 200, 4
+		fc, _ := fitting(g, 7, M)
+		fr := refcodec.MustFrame(clampTread(fc, M)) // an outgoing Tread has its count lowered to what a reply can carry
+		err := ch.WriteFcall(ctx, fc)
+		if err != nil {
+			if ctx.Err() != nil {
+				w.Inconclusive("real deadline missed")
+				return false
+			}
+			w.Violate("mismatch", "C02:deadline-sequence", fmt.Sprintf("%s: WriteFcall of a %d-byte frame failed: %v", what, len(fr), err), nil)
+			return false
+		}
+		got := make([]byte, len(fr)+16)
+		n := 0
+		for n < len(fr) {
+			k, rerr := b.Read(got[n:])
+			n += k
+			if rerr != nil {
+				break
+			}
+		}
+		if n != len(fr) || !bytes.Equal(got[:n], fr) {
+			w.Violate("mismatch", "C02:deadline-sequence", fmt.Sprintf("%s: the connection carries %d bytes, want exactly the %d-byte frame", what, n, len(fr)), nil)
+			return false
+		}
+		return true
+	}
+	if !step(context.Background(), "first write, no deadline") {
+		return
+	}
+	dctx, cancel := context.WithTimeout(context.Background(), 10*time.Second)
+	defer cancel()
+	if !step(dctx, "write with a 10 s context deadline") {
+		return
+	}
+	if no%2 == 1 {
+		cancel()
+	}
+	atomic.StoreInt64(&skew, int64(time.Duration(11+w.Rng.Intn(8))*time.Second))
+	for k := 0; k < 3; k++ {
+		if !step(context.Background(), fmt.Sprintf("write #%d without deadline after the earlier deadline has passed", k+1)) {
+			return
+		}
+	}
+	w.NT(fmt.Sprintf("deadlines/%d", no))
+}
+
 func runC02(w *mon.W) {
+	for i := 0; i < w.Scale(60, 3000); i++ {
+		if w.Mine(i) {
+			deadlinesC02(w, gen.Small(w.Rng), i)
+		}
+	}
 	total := w.Scale(30000, 6000000)
 	g := gen.New(w.Rng)
 	g.MaxData = 1<<20 - 23
